@@ -508,35 +508,45 @@ impl Model {
                         Some(p) => p,
                         None => return unknown("precedence of this function value"),
                     };
-                    if chains_with_neighbours(&f) {
+                    if chains_with_neighbours(&f) && !is_comparison(&f) {
                         return unknown("self-chaining operator in a multi-operator chain");
                     }
                     ops.push((f, prec, right));
                     operands.push(self.eval(sc, x)?);
                 }
-                // operator-precedence reduction
-                let mut vals: Vec<V> = vec![operands.remove(0)];
-                let mut pend: Vec<(Rc<FuncV>, f64, bool)> = Vec::new();
+                // operator-precedence reduction; a comparison that would be run because the next
+                // operator does not bind tighter merges with that operator instead when it is a
+                // comparison too (`a < b <= c` is one test over three operands)
+                let mut rightmost: V = operands.remove(0);
+                let mut pend: Vec<(Vec<V>, Vec<Rc<FuncV>>, f64, bool)> = Vec::new();
                 for (op, operand) in ops.into_iter().zip(operands.into_iter()) {
+                    let mut merged = false;
                     while let Some(top) = pend.last() {
-                        let tighter = top.1 > op.1 || (!(top.1 < op.1) && !top.2);
+                        let tighter = top.2 > op.1 || (!(top.2 < op.1) && !top.3);
                         if !tighter {
                             break;
                         }
-                        let (f, _, _) = pend.pop().unwrap();
-                        let r = vals.pop().unwrap();
-                        let l = vals.pop().unwrap();
-                        vals.push(self.call_func_at(sc, &f, vec![l, r])?);
+                        let (mut xs, fs, prec, right) = pend.pop().unwrap();
+                        if is_comparison(&fs[0]) && is_comparison(&op.0) {
+                            xs.push(std::mem::replace(&mut rightmost, operand.clone()));
+                            let mut fs = fs;
+                            fs.push(op.0.clone());
+                            pend.push((xs, fs, prec, right));
+                            merged = true;
+                            break;
+                        }
+                        xs.push(std::mem::replace(&mut rightmost, V::Null));
+                        rightmost = self.run_chain_group(sc, &fs, xs)?;
                     }
-                    pend.push(op);
-                    vals.push(operand);
+                    if !merged {
+                        pend.push((vec![std::mem::replace(&mut rightmost, operand)], vec![op.0], op.1, op.2));
+                    }
                 }
-                while let Some((f, _, _)) = pend.pop() {
-                    let r = vals.pop().unwrap();
-                    let l = vals.pop().unwrap();
-                    vals.push(self.call_func_at(sc, &f, vec![l, r])?);
+                while let Some((mut xs, fs, _, _)) = pend.pop() {
+                    xs.push(std::mem::replace(&mut rightmost, V::Null));
+                    rightmost = self.run_chain_group(sc, &fs, xs)?;
                 }
-                Ok(vals.pop().unwrap())
+                Ok(rightmost)
             }
             Ex::Update(x, kvs) => {
                 let mut xv = self.eval(sc, x)?;
@@ -1449,6 +1459,20 @@ impl Model {
 
     // -----------------------------------------------------------------------------------------
     // lvalues
+
+    /// one operator applied to two operands, or a merged run of comparisons over n+1 operands
+    fn run_chain_group(&mut self, sc: &ScopeRef, fs: &[Rc<FuncV>], xs: Vec<V>) -> R<V> {
+        if fs.len() == 1 {
+            return self.call_func_at(sc, &fs[0], xs);
+        }
+        for (i, f) in fs.iter().enumerate() {
+            let r = self.call_func_at(sc, f, vec![xs[i].clone(), xs[i + 1].clone()])?;
+            if !self.truthy(&r)? {
+                return Ok(vint(0));
+            }
+        }
+        Ok(vint(1))
+    }
 
     fn eval_ix(&mut self, sc: &ScopeRef, ix: &Ix) -> R<EIx> {
         Ok(match ix {
@@ -2659,6 +2683,10 @@ pub fn precedence_of(f: &Rc<FuncV>) -> Option<(f64, bool)> {
 }
 
 /// operators that merge with their neighbours into one n-ary application (comparisons, zip, ...)
+fn is_comparison(f: &Rc<FuncV>) -> bool {
+    matches!(&**f, FuncV::Builtin(name) if matches!(name.as_str(), "==" | "!=" | "<" | "<=" | ">" | ">="))
+}
+
 fn chains_with_neighbours(f: &Rc<FuncV>) -> bool {
     match &**f {
         FuncV::Builtin(name) => matches!(
